@@ -77,8 +77,15 @@ func hmVia(h spec.HM, via uint8) types.HHmm {
 	v := types.NewHHmm(h.H, h.M)
 	switch via {
 	case 1:
-		if p, err := types.HHmmFromString(fmt.Sprintf("%02d:%02d", h.H, h.M)); err == nil && p != nil {
+		text := fmt.Sprintf("%02d:%02d", h.H, h.M)
+		if p, err := types.HHmmFromString(text); err == nil && p != nil {
 			v = *p
+			// the pointer that was handed out is the caller's: writing another time of day through it, then parsing the same text
+			// again, gives the text's value again (the second parse is what the comparisons below use)
+			*p = types.NewHHmm((h.H+7)%24, (h.M+13)%60)
+			if q, err := types.HHmmFromString(text); err == nil && q != nil {
+				v = *q
+			}
 		}
 	case 2:
 		if h.H < 24 {
@@ -437,7 +444,9 @@ func floorDiv(a, b int64) int64 {
 
 func checkDT(c dtCase) *rp.Fail {
 	base := time.Unix(c.Unix, int64(c.Millis)*1_000_000).In(api.LoadLocation(c.Loc))
-	inst := base.Add(time.Duration(c.DeltaMs) * time.Millisecond)
+	// (time.Duration cannot hold more than 292 years: the instant is built from seconds and milliseconds)
+	ms := c.Unix*1000 + int64(c.Millis) + c.DeltaMs
+	inst := time.Unix(floorDiv(ms, 1000), (ms-floorDiv(ms, 1000)*1000)*1_000_000).In(base.Location())
 	switch c.InstLoc {
 	case "", "=":
 	case "fixed":
@@ -486,6 +495,15 @@ func genDT(t *rapid.T) dtCase {
 		c.DeltaMs = rapid.Int64Range(-3000, 3000).Draw(t, "delta")
 	default:
 		c.DeltaMs = rapid.Int64Range(-1_000_000_000, 1_000_000_000).Draw(t, "delta")
+	}
+	if rapid.IntRange(0, 5).Draw(t, "far.apart") == 0 {
+		// centuries apart ('now' against a never-expires date such as 2999-12-31 or 9999-12-31; differences beyond 2^63 ns)
+		c.Unix = rapid.Int64Range(0, 4102444800).Draw(t, "unix.far")
+		years := rapid.SampledFrom([]int64{100, 291, 292, 293, 300, 584, 585, 973, 1000, 2000, 5000, 7900}).Draw(t, "years")
+		c.DeltaMs = years*31_556_952_000 + rapid.Int64Range(-86_400_000, 86_400_000).Draw(t, "delta.far")
+		if rapid.Bool().Draw(t, "far.back") && c.Unix > years*31_556_952+86_400 {
+			c.DeltaMs = -c.DeltaMs
+		}
 	}
 	return c
 }
